@@ -143,6 +143,26 @@ def empty_input():
     return Harness(body, [('d', IntRange(0, len(DOCS) - 1))], describe=lambda a: {'document': DOCS[a['d']]}, bounds={'documents': DOCS})
 
 
+LITERALS = {
+    # outside the bounds of the symbolic families (K characters per hole): reported by the sub-agent that seeded C08 changes
+    'huge_integer_default': "Table t {\n  c int [default: " + '1' * 4301 + "]\n}\n",
+}
+
+
+def literal(which):
+    """a pinned document outside the symbolic bounds; recorded findings of this kind are replayed through it on every run"""
+    from harness.common import IntRange
+
+    def body(a):
+        try:
+            outcome = ('ok', docs.parse(LITERALS[which]))
+        except Exception as e:
+            outcome = ('raise', e)
+        return _judge(a, None, '', outcome)
+
+    return Harness(body, [('d', IntRange(0, 0))], describe=lambda a: {'document': LITERALS[which][:60] + ' ...'}, bounds={'document': which})
+
+
 def _count(element, inner, size=4):
     return (len(_token_spans(T.ELEMENTS[element], inner)) + size - 1) // size
 
